@@ -94,6 +94,27 @@ pub fn spaces(tier: Tier) -> Vec<Space<'static>> {
         }
         acc.sample(|| json!({"doc": format!("{:?}", v), "n_calls": calls.len(), "calls": calls.iter().step_by(37).map(|c| c.label.clone()).collect::<Vec<_>>()}));
     }));
+    {
+        // the editors with the document given as JSON text: the text branches have their own buffer handling
+        let (p3, pre3) = (pool.clone(), pre.clone());
+        sp.push(Space::new("d2 as JSON text x editing calls x prefixes", d2.len() as u64, move |i, acc| {
+            let v = &d2[i as usize];
+            if !v.all_finite() {
+                return;
+            }
+            let text = refmodel::text::print(v);
+            let calls: Vec<BufCall> = crate::calls::edit_calls_from(v, &Opts { extremes: false, pool: p3.clone(), sets: true }, text.clone().into_bytes())
+                .into_iter()
+                // the builders take JSONB parts only ("assuming that the input values is valid JSONB data")
+                .filter(|c| !c.label.starts_with("build_"))
+                .map(|c| { let run = c.run; BufCall { label: format!("text:{}", c.label), run: Box::new(move |d, _| run(d)) } })
+                .collect();
+            acc.nontrivial += calls.len() as u64;
+            for c in &calls {
+                check_call(c, &pre3, acc, &|| json!({"doc_text": text}));
+            }
+        }));
+    }
     if tier.thorough() {
         let d1q = univ::d1q();
         let (p2, pre2) = (pool.clone(), pre.clone());
